@@ -96,13 +96,15 @@ class Repo:
             inlined = []
             orig = tree
             if name in HAND_WRITTEN and not os.environ.get("CMINX_SA_NO_FLATTEN"):
-                from .inline import expand_compiled_regexes, expand_decorators
+                from .inline import desugar_dataclasses, expand_compiled_regexes, expand_decorators, expand_format_calls
                 try:
                     tree = expand_compiled_regexes(tree)
+                    tree = expand_format_calls(tree)
                     tree, decs = expand_decorators(tree)
+                    tree, dcs = desugar_dataclasses(tree)
                 except RecursionError:
-                    decs = []
-                inlined = list(decs)
+                    decs, dcs = [], []
+                inlined = list(decs) + [f"@dataclass {c}" for c in dcs]
             if (name in FLATTEN or name in FLATTEN_UNDERSCORE) and not os.environ.get("CMINX_SA_NO_FLATTEN"):
                 from .inline import flatten_module
                 try:
